@@ -60,8 +60,8 @@ func (t Ty) Text() string {
 	panic("bad ty " + t.K)
 }
 
-const minI64 = "(-9223372036854775808)"
-const maxI64 = "9223372036854775807"
+const minI64 = "min_int64"
+const maxI64 = "max_int64"
 
 func (t Ty) Gallina() string {
 	switch t.K {
@@ -83,9 +83,9 @@ func (t Ty) Gallina() string {
 	case "arr":
 		return "(TArray " + t.E.Gallina() + ")"
 	case "obj":
-		return "(TObj " + lib.GStr(t.N) + ")"
+		return "(TObj " + gS(t.N) + ")"
 	case "other":
-		return "(TOther " + lib.GStr(t.N) + ")"
+		return "(TOther " + gS(t.N) + ")"
 	}
 	panic("bad ty " + t.K)
 }
@@ -280,7 +280,7 @@ func (v RV) Gallina() string {
 	case "int":
 		return fmt.Sprintf("(VInt (%d))", v.I)
 	case "str":
-		return "(VStr " + lib.GStr(v.S) + ")"
+		return "(VStr " + gS(v.S) + ")"
 	case "tystr":
 		return "(VTyStr " + v.T.Gallina() + ")"
 	case "type":
@@ -300,7 +300,7 @@ func (v RV) Gallina() string {
 func gKVs(h []KV) string {
 	ps := make([]string, len(h))
 	for i, e := range h {
-		ps[i] = lib.GPair(lib.GStr(e.K), e.V.Gallina())
+		ps[i] = lib.GPair(gS(e.K), e.V.Gallina())
 	}
 	return lib.GList(ps, "str * value")
 }
@@ -308,7 +308,7 @@ func gKVs(h []KV) string {
 func gStrs(ss []string) string {
 	ps := make([]string, len(ss))
 	for i, s := range ss {
-		ps[i] = lib.GStr(s)
+		ps[i] = gS(s)
 	}
 	return lib.GList(ps, "str")
 }
